@@ -999,6 +999,9 @@ func TestC09(t *testing.T) {
 			tr.Count("op:create:" + res)
 		}
 		f.runSequence(rng.Range(8, scale(28, 60)))
+		if f.lend {
+			f.sellOffChecks()
+		}
 		// a stored counter that disagrees with the list (state injection: what D3 produces) — C15 uses the theorem
 		if rng.Chance(30) {
 			n := f.app.VaultKeeper.GetLengthOfVault(f.ctx)
@@ -1624,4 +1627,97 @@ func (f *c09Fix) borrowAccruals() map[uint64]sdk.Dec {
 		})
 	}
 	return out
+}
+
+// generation 1 borrow sell-off: the real UpdateLockedBorrows (direct keeper call on a throw-away branch; the generation-1
+// hooks are not wired and its auction start may fail afterwards — the amounts are written before that) against
+// `sellOffV1`. Run on the borrows that are still open at the end of a lend sequence, at the current and at lower prices.
+func (f *c09Fix) sellOffChecks() {
+	raw := func(d sdk.Dec) string {
+		if d.IsNil() {
+			return "0"
+		}
+		return d.BigInt().String()
+	}
+	for round := 0; round < 3; round++ {
+		for _, r := range f.borrowRecords() {
+			if r.missing || r.liquidated || !r.amountIn.IsPositive() {
+				continue
+			}
+			cctx, _ := f.ctx.CacheContext()
+			if round > 0 { // deeper under water
+				tw, _ := f.app.MarketKeeper.GetTwa(cctx, r.assetIn)
+				np := tw.Twa * uint64(f.rng.Range(35, 95)) / 100
+				if np == 0 {
+					np = 1
+				}
+				f.app.MarketKeeper.SetTwa(cctx, markettypes.TimeWeightedAverage{AssetID: r.assetIn, ScriptID: 12, Twa: np, IsPriceActive: true, PriceValue: []uint64{np}})
+			}
+			bp, err := f.app.LendKeeper.CalculateBorrowInterestForLiquidation(cctx, r.id)
+			if err != nil {
+				continue
+			}
+			pair, _ := f.app.LendKeeper.GetLendPair(cctx, bp.PairID)
+			lp, _ := f.app.LendKeeper.GetLend(cctx, bp.LendingID)
+			pool, _ := f.app.LendKeeper.GetPool(cctx, lp.PoolID)
+			a1, _ := f.app.AssetKeeper.GetAsset(cctx, pair.AssetIn)
+			a2, _ := f.app.AssetKeeper.GetAsset(cctx, pair.AssetOut)
+			rp, _ := f.app.LendKeeper.GetAssetRatesParams(cctx, pair.AssetIn)
+			ca, _ := f.app.AssetKeeper.GetAsset(cctx, rp.CAssetID)
+			t1, _ := f.app.MarketKeeper.GetTwa(cctx, a1.Id)
+			t2, _ := f.app.MarketKeeper.GetTwa(cctx, a2.Id)
+			if !t1.IsPriceActive || !t2.IsPriceActive {
+				f.tr.Count("selloff:skipped-inactive-price")
+				continue
+			}
+			c := rp.Ltv
+			if !bp.BridgedAssetAmount.Amount.IsZero() {
+				rt, _ := f.app.LendKeeper.GetAssetRatesParams(cctx, r.t2)
+				if r.bridgedAsset == r.t1 {
+					rt, _ = f.app.LendKeeper.GetAssetRatesParams(cctx, r.t1)
+				}
+				c = rp.Ltv.Mul(rt.Ltv)
+			}
+			pen := rp.LiquidationPenalty
+			if pair.IsEModeEnabled {
+				pen = rp.ELiquidationPenalty
+			}
+			bal := func(mod, denom string) sdk.Int {
+				addr := f.app.AccountKeeper.GetModuleAddress(mod)
+				if addr == nil {
+					return sdk.ZeroInt()
+				}
+				return f.app.BankKeeper.GetBalance(cctx, addr, denom).Amount
+			}
+			updatedOut := bp.AmountOut.Amount.Add(bp.InterestAccumulated.TruncateInt())
+			lv, _ := f.app.LiquidationKeeper.CreateLockedBorrow(cctx, bp, sdk.ZeroDec(), lp.AppID)
+			au0, rs0, ct0 := bal(auctiontypes.ModuleName, a1.Denom), bal(lendtypes.ModuleName, a1.Denom), bal(pool.ModuleName, ca.Denom)
+			var uerr error
+			pn, pmsg := try(func() { uerr = f.app.LiquidationKeeper.UpdateLockedBorrows(cctx, lv) })
+			if os.Getenv("VERIF_DEBUG") != "" {
+				fmt.Fprintf(os.Stderr, "selloff borrow %d: panic=%v %s err=%v\n", r.id, pn, pmsg, uerr)
+			}
+			got, found := f.app.LiquidationKeeper.GetLockedVault(cctx, lv.AppId, lv.LockedVaultId)
+			in := []string{bp.AmountIn.Amount.String(), updatedOut.String(), u(t1.Twa), u(t2.Twa), a1.Decimals.String(), a2.Decimals.String(), raw(c), raw(pen), raw(rp.LiquidationBonus)}
+			if !found {
+				f.tr.Count("selloff:err")
+				f.tr.Line("liq.selloff.single", append(in, "0", "0", "0", "0", "0", "0", "0", "err")...)
+				continue
+			}
+			lpAfter, ok := f.app.LendKeeper.GetLend(cctx, bp.LendingID)
+			lendRed := lp.AmountIn.Amount
+			if ok {
+				lendRed = lp.AmountIn.Amount.Sub(lpAfter.AmountIn.Amount)
+			}
+			toAuction := bal(auctiontypes.ModuleName, a1.Denom).Sub(au0)
+			toReserve := bal(lendtypes.ModuleName, a1.Denom).Sub(rs0)
+			burnt := ct0.Sub(bal(pool.ModuleName, ca.Denom))
+			f.tr.Count("selloff:ok")
+			if toAuction.Add(toReserve).GT(bp.AmountIn.Amount) {
+				f.tr.Count("selloff:moved-more-than-collateral")
+			}
+			f.tr.Line("liq.selloff.single", append(in, raw(got.CurrentCollaterlisationRatio), raw(got.CollateralToBeAuctioned), toAuction.String(), toReserve.String(),
+				burnt.String(), got.AmountIn.String(), lendRed.String(), "ok")...)
+		}
+	}
 }
